@@ -142,10 +142,13 @@ def gl2(prog, getfn):
                     "; ".join(errs) if errs else "tbl[f(hash,cap)] = Some(Element::new(key,val,hash)); same f as get"))
     grow = prog.find1(name="grow", self_adt="util::lru::Lru", unit="rsdd-lib")
     te = grow.terms
-    calls = [cs for cs in te.calls if cs.callee.name == "insert" and cs.callee.key().startswith("util::lru::Lru")]
+    # the re-insertion may sit in a closure handed to an iterator adaptor (for_each)
+    bodies = [grow] + [g for g in prog.lib_fns if g.npath.startswith(grow.npath + "::{closure")]
+    calls = [cs for g in bodies for cs in g.terms.calls
+             if cs.callee.name == "insert" and cs.callee.key().startswith("util::lru::Lru")]
     errs = []
     if len(calls) != 1:
-        errs.append("expected one re-insert call in grow, found %d" % len(calls))
+        errs.append("%sexpected one re-insert call in grow, found %d" % ("?" if not calls else "", len(calls)))
     else:
         a = [strip(x) for x in calls[0].args[1:]]
         names = [x[2] if x[0] == "field" else None for x in a]
@@ -153,8 +156,8 @@ def gl2(prog, getfn):
         if names != ["key", "val", "hash"] or len(bases) != 1:
             errs.append("grow re-inserts (%s) — must be (e.key, e.val, e.hash) of one element"
                         % ", ".join(show(x) for x in a))
-    out.append(inst("GL", "%s:GL2:grow" % grow.npath, VIOLATION if errs else OK, grow, None,
-                    "; ".join(errs) if errs else "re-inserts (e.key, e.val, e.hash) of each surviving element"))
+    out.append(inst("GL", "%s:GL2:grow" % grow.npath, verdict_of(errs), grow, None,
+                    errtext(errs) if errs else "re-inserts (e.key, e.val, e.hash) of each surviving element"))
     return out
 
 
